@@ -138,3 +138,135 @@ Section Group.
     - intros x y Hx Hy. now apply gkernel_detailed_balance.
   Qed.
 End Group.
+
+(* ------------------------------------------------------------------ *)
+(* the same with one probability per cluster (weighted cluster update: clusters holding a symmetry-breaking
+   operator have probability 0, the others 1/2); all conditions are asked only of bit vectors that have
+   non-zero probability *)
+Fixpoint pw (probs : list Q) (fl : list bool) : Q :=
+  match probs, fl with
+  | q :: r, b :: t => (if b then qclip q else 1 - qclip q) * pw r t
+  | _, _ => 1
+  end.
+
+Lemma expect_draw_flips_weighted {A} (k : list bool -> prog A) (f : A -> Q) : forall probs acc,
+  expect (draw_flips probs acc k) f
+  == Qsum (map (fun fl => pw probs fl * expect (k (rev acc ++ fl)) f) (all_substates (length probs))).
+Proof.
+  induction probs as [|q r IH]; intros acc; cbn [draw_flips length all_substates].
+  - cbn [map Qsum fold_right pw]. rewrite app_nil_r. ring.
+  - unfold expect at 1. cbn [denote]. rewrite emass_app, !emass_dscale.
+    change (emass f (denote ?m)) with (expect m f).
+    rewrite (IH (true :: acc)), (IH (false :: acc)).
+    rewrite (Qsum_flat_map2 (fun fl => pw (q :: r) fl * expect (k (rev acc ++ fl)) f) (fun s => s)).
+    rewrite <- !Qsum_map_scale, <- Qsum_map_plus. apply Qsum_ext. intros s _.
+    cbn [rev pw]. rewrite <- !app_assoc. cbn [app]. ring.
+Qed.
+
+Lemma draw_flips_support_w {A} (k : list bool -> A) (P : A -> Prop) : forall probs acc,
+  (forall fl, length fl = length probs -> ~ pw probs fl == 0 -> P (k (rev acc ++ fl))) ->
+  Forall (fun '(p, a) => p == 0 \/ P a) (denote (draw_flips probs acc (fun fl => Ret (k fl)))).
+Proof.
+  induction probs as [|q r IH]; intros acc Hk; cbn [draw_flips denote].
+  - constructor; [|constructor]. right. specialize (Hk [] eq_refl). rewrite app_nil_r in Hk. apply Hk. cbn. lra.
+  - apply Forall_app. split.
+    + destruct (Qeq_dec (qclip q) 0) as [Hz|Hnz].
+      * unfold dscale. apply Forall_forall. intros [p a] Hin. apply in_map_iff in Hin.
+        destruct Hin as [[p' a'] [E _]]. inversion E; subst. left. rewrite Hz. ring.
+      * unfold dscale. apply Forall_forall. intros [p a] Hin. apply in_map_iff in Hin.
+        destruct Hin as [[p' a'] [E Hin]]. inversion E; subst.
+        assert (HF := IH (true :: acc)). rewrite Forall_forall in HF.
+        assert (Hk' : forall fl, length fl = length r -> ~ pw r fl == 0 -> P (k (rev (true :: acc) ++ fl))).
+        { intros fl Hl Hp. cbn [rev]. rewrite <- app_assoc. apply (Hk (true :: fl)); [cbn; now rewrite Hl|].
+          cbn [pw]. intros E0. apply Hp. apply Qmult_integral in E0. destruct E0; [contradiction|assumption]. }
+        destruct (HF Hk' (p', a) Hin) as [Hz|HP]; [left; rewrite Hz; ring|now right].
+    + destruct (Qeq_dec (1 - qclip q) 0) as [Hz|Hnz].
+      * unfold dscale. apply Forall_forall. intros [p a] Hin. apply in_map_iff in Hin.
+        destruct Hin as [[p' a'] [E _]]. inversion E; subst. left. rewrite Hz. ring.
+      * unfold dscale. apply Forall_forall. intros [p a] Hin. apply in_map_iff in Hin.
+        destruct Hin as [[p' a'] [E Hin]]. inversion E; subst.
+        assert (HF := IH (false :: acc)). rewrite Forall_forall in HF.
+        assert (Hk' : forall fl, length fl = length r -> ~ pw r fl == 0 -> P (k (rev (false :: acc) ++ fl))).
+        { intros fl Hl Hp. cbn [rev]. rewrite <- app_assoc. apply (Hk (false :: fl)); [cbn; now rewrite Hl|].
+          cbn [pw]. intros E0. apply Hp. apply Qmult_integral in E0. destruct E0; [contradiction|assumption]. }
+        destruct (HF Hk' (p', a) Hin) as [Hz|HP]; [left; rewrite Hz; ring|now right].
+Qed.
+
+Section GroupW.
+  Context {X : Type} (eqb : X -> X -> bool).
+  Hypothesis eqb_ok : forall x y, eqb x y = true <-> x = y.
+  Variable act : X -> list bool -> X.
+  Variable pr : X -> list Q.
+  Variable Wt : X -> Q.
+  Variable xs : list X.
+  Hypothesis Hnd : NoDup xs.
+  Definition possible (x : X) (fl : list bool) : Prop := length fl = length (pr x) /\ ~ pw (pr x) fl == 0.
+  Hypothesis Hin : forall x fl, In x xs -> possible x fl -> In (act x fl) xs.
+  Hypothesis Hpr : forall x fl, In x xs -> possible x fl -> pr (act x fl) = pr x.
+  Hypothesis Hinv : forall x fl, In x xs -> possible x fl -> act (act x fl) fl = x.
+  Hypothesis HW : forall x fl, In x xs -> possible x fl -> Wt (act x fl) == Wt x.
+
+  Definition gkernel_w (x : X) : prog X := draw_flips (pr x) [] (fun fl => Ret (act x fl)).
+
+  Lemma gkernel_w_mass x y :
+    mass (eqb y) (denote (gkernel_w x))
+    == Qsum (map (fun fl => pw (pr x) fl * (if eqb y (act x fl) then 1 else 0)) (all_substates (length (pr x)))).
+  Proof.
+    rewrite mass_as_emass. change (emass ?f (denote ?m)) with (expect m f). unfold gkernel_w.
+    rewrite expect_draw_flips_weighted. apply Qsum_ext. intros fl _. cbn [rev app]. rewrite expect_ret. reflexivity.
+  Qed.
+
+  Lemma term_zero x y fl : In x xs -> In y xs -> length fl = length (pr x) ->
+    eqb y (act x fl) = false -> pw (pr y) fl * (if eqb x (act y fl) then 1 else 0) == 0 \/ length (pr y) <> length (pr x).
+  Proof.
+    intros Hx Hy Hl E1.
+    destruct (Nat.eq_dec (length (pr y)) (length (pr x))) as [El|]; [|now right]. left.
+    destruct (Qeq_dec (pw (pr y) fl) 0) as [Hz|Hnz]; [rewrite Hz; ring|].
+    destruct (eqb x (act y fl)) eqn:E2; [|ring]. apply eqb_ok in E2. exfalso.
+    assert (Hp : possible y fl) by (split; [congruence|exact Hnz]).
+    assert (E3 : act x fl = y) by (rewrite E2; now apply Hinv).
+    assert (E4 : eqb y (act x fl) = true) by (apply eqb_ok; now symmetry). congruence.
+  Qed.
+
+  Lemma gkernel_w_detailed_balance x y :
+    In x xs -> In y xs ->
+    Wt x * mass (eqb y) (denote (gkernel_w x)) == Wt y * mass (eqb x) (denote (gkernel_w y)).
+  Proof.
+    intros Hx Hy. rewrite !gkernel_w_mass, <- !Qsum_map_scale.
+    destruct (Nat.eq_dec (length (pr x)) (length (pr y))) as [E|NE].
+    - rewrite <- E. apply Qsum_ext. intros fl Hfl. apply all_substates_length in Hfl.
+      destruct (eqb y (act x fl)) eqn:E1.
+      + apply eqb_ok in E1.
+        destruct (Qeq_dec (pw (pr x) fl) 0) as [Hz|Hnz].
+        * (* impossible from x; then also impossible from y or not an inverse *)
+          rewrite Hz.
+          destruct (Qeq_dec (pw (pr y) fl) 0) as [Hzy|Hnzy]; [rewrite Hzy; ring|].
+          destruct (eqb x (act y fl)) eqn:E2; [|ring]. apply eqb_ok in E2. exfalso.
+          assert (Hp : possible y fl) by (split; [congruence|exact Hnzy]).
+          apply Hnzy. rewrite <- (Hpr y fl Hy Hp), <- E2. exact Hz.
+        * assert (Hp : possible x fl) by (split; assumption).
+          subst y. rewrite (Hpr x fl Hx Hp).
+          replace (eqb x (act (act x fl) fl)) with true by (symmetry; apply eqb_ok; symmetry; now apply Hinv).
+          rewrite (HW x fl Hx Hp). reflexivity.
+      + destruct (term_zero x y fl Hx Hy Hfl E1) as [Hz|Hne]; [|congruence].
+        transitivity (Wt y * (pw (pr y) fl * (if eqb x (act y fl) then 1 else 0))); [rewrite Hz; ring|reflexivity].
+    - rewrite !Qsum_all_zero; [reflexivity| |].
+      + intros fl Hfl. apply all_substates_length in Hfl.
+        destruct (Qeq_dec (pw (pr y) fl) 0) as [Hz|Hnz]; [rewrite Hz; ring|].
+        destruct (eqb x (act y fl)) eqn:E2; [|ring]. apply eqb_ok in E2. exfalso. apply NE.
+        assert (Hp : possible y fl) by (split; assumption). rewrite E2, (Hpr y fl Hy Hp). reflexivity.
+      + intros fl Hfl. apply all_substates_length in Hfl.
+        destruct (Qeq_dec (pw (pr x) fl) 0) as [Hz|Hnz]; [rewrite Hz; ring|].
+        destruct (eqb y (act x fl)) eqn:E1; [|ring]. apply eqb_ok in E1. exfalso. apply NE.
+        assert (Hp : possible x fl) by (split; assumption). rewrite E1, (Hpr x fl Hx Hp). reflexivity.
+  Qed.
+
+  Theorem gkernel_w_stationary : wstat xs Wt gkernel_w.
+  Proof.
+    apply (wstat_of_detailed_balance eqb eqb_ok); [exact Hnd| | |].
+    - intros x Hx. unfold gkernel_w, supp_in. apply (draw_flips_support_w (act x) (fun a => In a xs)).
+      intros fl Hl Hp. cbn [rev app]. apply Hin; [exact Hx|split; assumption].
+    - intros x Hx. unfold gkernel_w. apply draw_flips_total. intros fl. unfold total. rewrite mass_ret. reflexivity.
+    - intros x y Hx Hy. now apply gkernel_w_detailed_balance.
+  Qed.
+End GroupW.
